@@ -161,10 +161,97 @@ class Scanner:
         return out
 
 
+def _renderable(ly, paths=False):
+    ok = ("tok", "child", "name") + (("value",) if paths else ())
+    return ly is not None and (paths or not ly.varargs) and all(it[0] in ok for it in ly.items)
+
+
+def _atom_label(atom, truth):
+    pth = ".".join(str(i) for i in atom[1]) if isinstance(atom[1], tuple) else ""
+    if atom[0] == "kind":
+        return "child %s %s %s" % (pth, "is a" if truth else "is no", atom[2])
+    if atom[0] == "value":
+        return "child %s %s%s %d" % (pth, "" if truth else "not ", atom[2], atom[3])
+    if atom[0] == "is_true":
+        return "child %s %s `true`" % (pth, "is" if truth else "is not")
+    if atom[0] == "typeis":
+        return "child %s %s type %s" % (pth, "has" if truth else "has not", atom[2])
+    if atom[0] == "size":
+        return "%s than %d operands" % ("more" if truth else "no more", atom[2])
+    return "%s=%s" % (atom, truth)
+
+
+def _fixed_children(dec):
+    """child position -> text, for the children a path's assumptions pin down (a constant with a value the value
+    conditions allow, the literal true)"""
+    from .printer import _value_for
+    vals, fixed = {}, {}
+    for atom, v in dec.items():
+        if atom[0] == "value":
+            vals.setdefault(atom[1], []).append((atom[2], atom[3], v))
+    for atom, v in dec.items():
+        if atom[0] == "kind" and atom[2] == "CONSTANT" and v:
+            fixed[atom[1]] = "7"
+        if atom[0] == "is_true" and v:
+            fixed[atom[1]] = "true"
+    for pth, cs in vals.items():
+        x = _value_for(cs)
+        fixed[pth] = str(x if x is not None else 7)
+    return fixed
+
+
+def list_minimum(F, G, pk_args):
+    """kind -> least number of list elements the grammar can hand to the callback that creates the kind: the minimum of
+    the number-valued nonterminal passed in the CALL (NonEmptyExpressionList: `$$ = 1` / `$$ = $1 + 1` -> 1)."""
+    from .stack import Typing
+    from ..stackmachine import Lin
+    T = Typing.__new__(Typing)
+    T.G, T.value = G, {}
+    T._values()
+    INF = 10 ** 6
+    mins = {nt: INF for nt in G.by_lhs}
+    for _ in range(12):
+        changed = False
+        for nt, rules in G.by_lhs.items():
+            best = mins[nt]
+            for r in rules:
+                v = T.value.get(r.num)
+                if v is None:
+                    continue
+                tot = v.c
+                for var, coef in (v.v or {}).items():
+                    try:
+                        sym = G.symbol_at(r, int(var[1:]))
+                    except (ValueError, IndexError):
+                        sym = None
+                    m = mins.get(sym, INF) if sym is not None else INF
+                    tot = INF if m >= INF or coef < 0 else tot + coef * m
+                if tot < best:
+                    best = tot
+            if best != mins[nt]:
+                mins[nt], changed = best, True
+        if not changed:
+            break
+    out = {}
+    for r in G.rules:
+        for rr in [r] + [m for m in G.rules if m.host is r]:
+            for c in rr.calls:
+                for a in c.args:
+                    v = G.arg_value(rr, a)
+                    if v and v[0] == "sym" and v[2] == "number":
+                        nt = G.symbol_at(rr, v[1])
+                        if mins.get(nt, INF) < INF:
+                            for K in pk_args.get(r.num, set()):
+                                out[K] = min(out.get(K, INF), mins[nt])
+    return out
+
+
 def run(chk, F, G, rid="R-PRQUERY"):
-    chk.rule(rid, "for every query / dynamic / MITL kind whose print layout consists of literal text and children: the "
-                  "printed text (children replaced by identifiers) is accepted by the property grammar - on its own or "
-                  "as the operand of `E<> (..)` - and a production used in that parse can create a node of the kind")
+    chk.rule(rid, "for every query / dynamic / MITL kind, and for every path of its print code (split on what the code "
+                  "tests about the children: constant or not, value, list type, optional operands): the printed text "
+                  "(children as identifiers, constants where the path says so) is accepted by the property grammar - on "
+                  "its own or as an operand - a production used in that parse can create a node of the kind, and every "
+                  "expression operand keeps its extent when it is a conditional expression")
     PR = PrintReader(F)
     sc = Scanner(F)
     sim = LRSim(G)
@@ -174,100 +261,140 @@ def run(chk, F, G, rid="R-PRQUERY"):
     creatable = set()
     for ks in pk.values():
         creatable |= ks
-    n = 0
+    n = n_paths = 0
+    lmin = list_minimum(F, G, production_kinds(F, G, classes=("UTAP::ExpressionBuilder",)))
     for K in sorted(set(kinds)):
         if K not in creatable:
             continue
         ly = PR.layout(K)
         if ly is None:
             continue
-        if ly.varargs or any(it[0] not in ("tok", "child", "name") for it in ly.items):
-            chk.note("%s: print(%s) is not a fixed sequence of text and children (%s) - not decided" %
-                     (rid, K, [it for it in ly.items if it[0] not in ("tok", "child", "name")][:2] or "variable arity"))
-            continue
-        where = "%s:%s" % (PR.fn["file"], PR.fn["line"])
-        nchild = sum(1 for it in ly.items if it[0] != "tok")
-        if nchild == 1 and not any(it[0] == "tok" and it[1].strip() for it in ly.items):
-            continue        # a transparent wrapper (MITL_ATOM, PROCESS_VAR): it has no text of its own
         if K in OUT_OF_SCOPE:
             chk.note("%s: %s is not among the query forms C03 names (%s) - not armed" % (rid, K, OUT_OF_SCOPE[K]))
             continue
-        n += 1
-        if not "".join(it[1] for it in ly.items if it[0] == "tok").strip() and nchild == 0:
-            chk.ob(rid, "%s|text" % K, False,
-                   "expression_t::print writes nothing for %s, a kind the property grammar can build: str() of such a "
-                   "query is the empty string" % K, where)
-            continue
-        # a child can be an identifier, a number, a parenthesised expression or a path formula: every combination is
-        # tried; the first that parses and re-creates the kind decides
-        alts = ("%s", "A<> %s", "7", "(%s)")
-        best = None         # (text, tree, context)
-        any_parse = None
-        scan_err = None
-        combos = list(itertools.product(alts, repeat=nchild)) if nchild <= 4 else [tuple(["%s"] * nchild)]
-        for combo in combos:
-            names = iter("abcdefghij")
-            ci = iter(combo)
-            text = "".join(it[1] if it[0] == "tok" else next(ci).replace("%s", next(names)) for it in ly.items)
-            try:
-                toks = sc.tokens(text)
-            except ParseError as e:
-                scan_err = (text, e)
+        where = "%s:%s" % (PR.fn["file"], PR.fn["line"])
+        if _renderable(ly):
+            variants = [("", ly, {})]
+        else:
+            paths = PR.layouts(K)
+            good = [(d, l) for d, l in (paths or []) if _renderable(l, True)]
+            if not good:
+                chk.note("%s: print(%s) is not a sequence of text, children and values on any path (%s) - not decided" %
+                         (rid, K, [it for it in ly.items if it[0] not in ("tok", "child", "name")][:2] or "variable arity"))
                 continue
-            # contexts as the printer itself produces them: `E<> ` / `Pr ` followed by the child's text, no added
-            # parentheses (a kind that needs them must print them)
-            for pre, post, cname in (([], [], "a query"), (["T_EF"], [], "the operand of E<>"),
-                                     (["T_PROBA"], [], "the operand of Pr")):
-                try:
-                    tree = sim.parse(["T_PROPERTY"] + pre + toks + post)
-                except ParseError:
-                    continue
-                used = set()
-
-                def rules_of(nd):
-                    if nd.rule is not None:
-                        used.add(nd.rule.num)
-                    for k_ in nd.kids or []:
-                        rules_of(k_)
-                rules_of(tree)
-                can = set()
-                for rn in used:
-                    can |= pk.get(rn, set())
-                if any_parse is None:
-                    any_parse = (text, cname, can)
-                if K in can:
-                    best = (text, cname, combo, pre, tree)
-                    break
-            if best:
-                break
-        names = iter("abcdefghij")
-        text = "".join(it[1] if it[0] == "tok" else next(names) for it in ly.items)
-        if best is None and any_parse is None and scan_err is not None and len(combos) == 1:
-            chk.ob(rid, "%s|parses" % K, False,
-                   "expression_t::print writes `%s` for %s, which the scanner rejects (%s)" % (scan_err[0], K, scan_err[1]), where)
-            continue
-        if best is not None:
-            chk.ob(rid, "%s|parses" % K, True, "", where, sample="print(%s) = `%s` parses as %s" % (K, best[0], best[1]))
-            chk.ob(rid, "%s|same-kind" % K, True, "", where)
-            _operand_cuts(chk, rid, K, ly, best, PR, sc, sim, where)
-            continue
-        if any_parse is not None:
-            chk.ob(rid, "%s|parses" % K, True, "", where)
-            chk.ob(rid, "%s|same-kind" % K, False,
-                   "expression_t::print writes `%s` for %s; the grammar accepts such a text (e.g. `%s` as %s), but the "
-                   "productions that accept it build %s - never %s: parse(str(e)) is a different tree" %
-                   (text, K, any_parse[0], any_parse[1],
-                    sorted(k_ for k_ in any_parse[2] if k_ not in OPERATOR_FRAGMENT)[:6] or "no query node", K), where)
-            continue
-        tree = None
-        if tree is None:
-            chk.ob(rid, "%s|parses" % K, False,
-                   "expression_t::print writes `%s` for %s (children as identifiers), which the property grammar does "
-                   "not accept - neither as a query nor as an operand: str() of a parsed %s cannot be parsed back" %
-                   (text, K, K), where)
-            continue
+            if len(good) < len(paths):
+                chk.note("%s: %d of %d paths of print(%s) are not readable - those are not decided" %
+                         (rid, len(paths) - len(good), len(paths), K))
+            variants = []
+            for d, l in sorted(good, key=lambda x: sorted((str(a), v) for a, v in x[0].items())):
+                if lmin.get(K, 0) >= 1 and any(a[0] == "size" and not v for a, v in d.items()):
+                    continue        # "no list elements": the grammar's list for this kind has at least one
+                label = "; ".join(_atom_label(a, v) for a, v in sorted(d.items(), key=lambda x: str(x[0])))
+                variants.append((label, l, _fixed_children(d)))
+        decided = False
+        for label, l, fixed in variants:
+            if _decide_layout(chk, rid, K, label, l, fixed, PR, sc, sim, pk, where):
+                decided = True
+                n_paths += 1
+        n += decided
     if n < 20:
         raise AnalysisBroken("only %d query kinds with a renderable print layout" % n)
+    chk.analysed[rid] = {"kinds": n, "print_paths": n_paths}
+
+
+def _decide_layout(chk, rid, K, label, ly, fixed, PR, sc, sim, pk, where):
+    """the obligations for one layout (one path of print for kind K); returns False when there is nothing to decide"""
+    KL = K if not label else "%s [%s]" % (K, label)
+    slots_ = [it for it in ly.items if it[0] != "tok"]
+    nchild = len(slots_)
+    if nchild == 1 and not any(it[0] == "tok" and it[1].strip() for it in ly.items):
+        return False        # a transparent wrapper (MITL_ATOM, PROCESS_VAR): it has no text of its own
+    if not "".join(it[1] for it in ly.items if it[0] == "tok").strip() and nchild == 0:
+        chk.ob(rid, "%s|text" % KL, False,
+               "expression_t::print writes nothing for %s, a kind the property grammar can build: str() of such a "
+               "query is the empty string" % KL, where)
+        return True
+
+    def slot_alts(it):
+        if it[0] == "value":
+            return ({"double": "0.5", "int": fixed.get(it[1], "7"), "quoted": "\"s\"", "string": "s"}[it[2]],)
+        if it[0] == "child":
+            pth = it[1] if isinstance(it[1], tuple) else (it[1],)
+            if pth in fixed:
+                return (fixed[pth],)
+        # a child can be an identifier, a number, a parenthesised expression or a path formula: every combination is
+        # tried; the first that parses and re-creates the kind decides
+        return ("%s", "A<> %s", "7", "(%s)")
+    alt_lists = [slot_alts(it) for it in slots_]
+    free = sum(1 for a in alt_lists if len(a) > 1)
+    if free > 4:
+        alt_lists = [a if len(a) == 1 else ("%s",) for a in alt_lists]
+    combos = list(itertools.product(*alt_lists))
+    best = None         # (text, context name, combo, context tokens, parse tree)
+    any_parse = None
+    scan_err = None
+    for combo in combos:
+        names = iter("abcdefghijklmnop")
+        ci = iter(combo)
+        text = "".join(it[1] if it[0] == "tok" else (lambda a: a.replace("%s", next(names)) if "%s" in a else a)(next(ci))
+                       for it in ly.items)
+        try:
+            toks = sc.tokens(text)
+        except ParseError as e:
+            scan_err = (text, e)
+            continue
+        # contexts as the printer itself produces them: `E<> ` / `Pr ` followed by the child's text, no added
+        # parentheses (a kind that needs them must print them)
+        for pre, post, cname in (([], [], "a query"), (["T_EF"], [], "the operand of E<>"),
+                                 (["T_PROBA"], [], "the operand of Pr")):
+            try:
+                tree = sim.parse(["T_PROPERTY"] + pre + toks + post)
+            except ParseError:
+                continue
+            used = set()
+
+            def rules_of(nd):
+                if nd.rule is not None:
+                    used.add(nd.rule.num)
+                for k_ in nd.kids or []:
+                    rules_of(k_)
+            rules_of(tree)
+            can = set()
+            for rn in used:
+                can |= pk.get(rn, set())
+            if any_parse is None:
+                any_parse = (text, cname, can)
+            if K in can:
+                best = (text, cname, combo, pre, tree)
+                break
+        if best:
+            break
+    names = iter("abcdefghijklmnop")
+    ci = iter(combos[0])
+    text = "".join(it[1] if it[0] == "tok" else (lambda a: a.replace("%s", next(names)) if "%s" in a else a)(next(ci))
+                   for it in ly.items)
+    if best is None and any_parse is None and scan_err is not None and len(combos) == 1:
+        chk.ob(rid, "%s|parses" % KL, False,
+               "expression_t::print writes `%s` for %s, which the scanner rejects (%s)" % (scan_err[0], KL, scan_err[1]), where)
+        return True
+    if best is not None:
+        chk.ob(rid, "%s|parses" % KL, True, "", where, sample="print(%s) = `%s` parses as %s" % (KL, best[0], best[1]))
+        chk.ob(rid, "%s|same-kind" % KL, True, "", where)
+        _operand_cuts(chk, rid, KL, K, ly, best, PR, sc, sim, where)
+        return True
+    if any_parse is not None:
+        chk.ob(rid, "%s|parses" % KL, True, "", where)
+        chk.ob(rid, "%s|same-kind" % KL, False,
+               "expression_t::print writes `%s` for %s; the grammar accepts such a text (e.g. `%s` as %s), but the "
+               "productions that accept it build %s - never %s: parse(str(e)) is a different tree" %
+               (text, KL, any_parse[0], any_parse[1],
+                sorted(k_ for k_ in any_parse[2] if k_ not in OPERATOR_FRAGMENT)[:6] or "no query node", K), where)
+        return True
+    chk.ob(rid, "%s|parses" % KL, False,
+           "expression_t::print writes `%s` for %s (children as identifiers), which the property grammar does "
+           "not accept - neither as a query nor as an operand: str() of a parsed %s cannot be parsed back" %
+           (text, KL, K), where)
+    return True
 
 
 # ------------------------------------------------------------------------------- R-PRPROD
@@ -750,7 +877,7 @@ def _slots(pt):
     return out
 
 
-def _operand_cuts(chk, rid, K, ly, best, PR, sc, sim, where):
+def _operand_cuts(chk, rid, KL, K, ly, best, PR, sc, sim, where):
     """Each operand of K that print writes as an expression is replaced, one at a time, by a conditional expression
     `x ? y : z` - parenthesised exactly when the layout's embrace helper would parenthesise a node of INLINE_IF's
     precedence - and the text is parsed again: the three identifiers must land in the operand slot the single identifier
@@ -788,9 +915,9 @@ def _operand_cuts(chk, rid, K, ly, best, PR, sc, sim, where):
                 next(names)
                 parts.append("(x ? y : z)" if paren else "x ? y : z")
             else:
-                parts.append(alt.replace("%s", next(names)))
+                parts.append(alt.replace("%s", next(names)) if "%s" in alt else alt)
         text = "".join(parts)
-        key = "%s|operand %s keeps its extent" % (K, it[1])
+        key = "%s|operand %s keeps its extent" % (KL, it[1])
         try:
             pt = sim.parse(["T_PROPERTY"] + pre + sc.tokens(text))
         except ParseError as e:
